@@ -109,7 +109,108 @@ func c07Run(c *Ctx) {
 	if !c07Space(c, "main", c07Terms, c07Entries, 3, K, c.Thorough()) {
 		return
 	}
-	c07Space(c, "references", c07RefTerms, c07RefEntries, 2, K+1, false)
+	if !c07Space(c, "references", c07RefTerms, c07RefEntries, 2, K+1, false) {
+		return
+	}
+	if !c07Space(c, "plus-pairs", c07PlusTerms, c07PlusEntries, 2, K+1, false) {
+		return
+	}
+	c07Long(c)
+}
+
+// the same id with and without '+' side by side (a de-duplication that forgets the '+' merges them)
+var c07PlusTerms = []string{"Apache-2.0", "Apache-1.1", "MIT", "MIT+", "GPL-2.0-only+"}
+var c07PlusEntries = []string{"Apache-1.0", "Apache-1.0+", "Apache-1.1", "MIT", "MIT+", "Zlib", "GPL-2.0-only", "GPL-2.0-only+"}
+
+// padding entries: unrelated to every term used below (no family, not mentioned)
+var c07Padding = []string{"Beerware", "Unlicense", "WTFPL", "X11", "NTP", "Vim", "curl", "Ruby", "JSON", "Zed", "0BSD", "zlib-acknowledgement", "ISC", "Libpng"}
+
+// c07Long: a short base list padded with unrelated and repeated entries up to 16 entries must give
+// the verdict of the base list (no term matches a padding entry); positions of the base entries vary.
+func c07Long(c *Ctx) {
+	terms := []string{"MIT", "MIT+", "Apache-2.0", "GPL-3.0-only", "LicenseRef-a", "GPL-2.0-only WITH Bison-exception-2.2"}
+	bases := [][]string{{"MIT"}, {"MIT+"}, {"Apache-1.0+"}, {"GPL-2.0+"}, {"LicenseRef-a"}, {"GPL-2.0-or-later WITH Bison-exception-2.2"}, {"Apache-2.0", "MIT"}, {"GPL-1.0+", "MIT+"}, {"Zlib"}}
+	trees := TreesUpTo(2, len(terms))
+	maxLen := 16
+	if c.Thorough() {
+		maxLen = 40
+	}
+	c.Bound("long_lists", map[string]any{"terms": terms, "base_lists": bases, "padding": c07Padding, "max_list_len": maxLen, "placements": "base entries first / last / spread, padding distinct or repeated"})
+	var ti int64
+	for n := 1; n <= 2; n++ {
+		for _, t := range trees[n] {
+			ti++
+			if !c.Mine(ti) {
+				continue
+			}
+			if c.Expired() {
+				return
+			}
+			expr := t.RenderFull(terms, true)
+			if !c.Begin("long lists for " + expr) {
+				continue
+			}
+			for _, base := range bases {
+				rb := Sat(expr, base)
+				c.Inc("states")
+				c.Inc("transitions")
+				c.Inc("evaluations")
+				if rb.Panic != "" || rb.IsErr {
+					c.Inc("skipped_panic")
+					continue
+				}
+				for total := len(base) + 1; total <= maxLen; total++ {
+					k := total - len(base)
+					for variant := 0; variant < 4; variant++ {
+						var pad []string
+						for i := 0; i < k; i++ {
+							switch variant {
+							case 3:
+								pad = append(pad, c07Padding[0]) // one entry repeated
+							default:
+								pad = append(pad, c07Padding[i%len(c07Padding)])
+							}
+						}
+						var l []string
+						switch variant {
+						case 0, 3:
+							l = append(append(l, base...), pad...)
+						case 1:
+							l = append(append(l, pad...), base...)
+						default:
+							l = append(l, pad[:k/2]...)
+							l = append(l, base...)
+							l = append(l, pad[k/2:]...)
+						}
+						r := Sat(expr, l)
+						c.Inc("states")
+						c.Inc("transitions")
+						c.Inc("evaluations")
+						if r.Panic != "" {
+							c.Inc("skipped_panic")
+							continue
+						}
+						c.Inc("traces")
+						if rb.Ok {
+							c.Inc("nontrivial")
+						}
+						if r.IsErr || r.Ok != rb.Ok {
+							kind := "set"
+							if rb.Ok {
+								kind = "monotone"
+							}
+							cs := c07Case{Kind: kind, Expr: expr, A: base, B: l}
+							msg, _ := c07Check(cs)
+							if msg == "" {
+								msg = fmt.Sprintf("Satisfies(%q, %q) = %v but with %d unrelated entries added it is %v", expr, base, rb.Ok, k, r.Ok)
+							}
+							c.Report(Violation{Kind: "c07.case", Class: "long-list", Key: expr + " | " + strings.Join(base, ",") + fmt.Sprintf(" padded to %d (variant %d)", total, variant), Msg: msg, Size: len(expr) + total, Case: mustJSON(cs)})
+						}
+					}
+				}
+			}
+		}
+	}
 }
 
 func c07Space(c *Ctx, spaceName string, c07Terms, c07Entries []string, maxLeaves, K int, extra5 bool) bool {
